@@ -268,7 +268,14 @@ pub fn run(cfg: &RunCfg) -> PropRun {
     run
 }
 
-pub fn replay(_campaign: &str, case: &Value) -> Result<(), Failure> {
-    let s: String = serde_json::from_value(case.clone()).map_err(|e| Failure::new("bad-replay", e.to_string()))?;
+pub fn replay(campaign: &str, case: &Value) -> Result<(), Failure> {
+    let bad = |e: serde_json::Error| Failure::new("bad-replay", e.to_string());
+    if campaign == "primed-text" {
+        let (prime, s): (String, String) = serde_json::from_value(case.clone()).map_err(bad)?;
+        let _ = guard(|| Version::parse(&prime).is_ok());
+        let _ = guard(|| Range::parse(&prime).is_ok());
+        return check_string(&s, &mut Stats::default());
+    }
+    let s: String = serde_json::from_value(case.clone()).map_err(bad)?;
     check_string(&s, &mut Stats::default())
 }
